@@ -14,9 +14,11 @@
     a handler and a single kill after which the operation is never created (the defect behind fix e9eb70c).
   * the answer path: `answer_order_in_source` (the result is posted before the operation is retired, so a
     kill in between leaves the operation pending and the result can be submitted again).
-  Assumed, not proved here: `ReapplySafe` of the real handler (every FSM event is refused, or idempotent,
-  when applied a second time; proved for the signing answers in C07, checked on real nodes by nodediff's
-  duplicate deliveries and by crashdiff), atomicity of a single LevelDB write, durability of the board file.
+  `ReapplySafe` is PROVED for the model's node handler, for every node state and message, in
+  `Props/C13Fsm.lean` (round machines), `Props/C13Node.lean` and `Props/C13Start.lean` (`node_reapply`,
+  `node_reapplySafe`), so `crash_safe` holds of it without assumption (`node_crash_safe`, `node_crash_safe_final`).
+  Assumed, not proved: atomicity of a single LevelDB write, durability of the board file; that the real handler is
+  the model's is the tie (nodediff, crashdiff), not a theorem.
 -/
 import Dc4bcVerif.Model.Crash
 import Dc4bcVerif.Gen.Effects
